@@ -98,11 +98,11 @@ package graphql
 
 //@ func completePlannedValueCatchingError
 //@   trusted
-//@   assigns class:executionContext.Errors, class:executionContext.Context, class:FormattedError, class:M|*graphql.Object|*graphql.selectionPlan, class:graphql.selectionPlan, class:graphql.fieldPlan, class:M|string|int, class:M|string|bool, class:E|*graphql.fieldPlan, class:E|*ast.Field, class:M|string|interface, class:E|interface, class:graphql.fragmentGate, class:graphql.fragmentTrace, class:E|graphql.collectStep, class:M|string|*graphql.fragmentTrace, class:E|graphql.fragmentSpreadEdge, class:M|string|*graphql.fragmentGate, class:E|func, class:graphql.Plan.expanding, class:M|*ast.Field|bool
+//@   assigns class:executionContext.Errors, class:executionContext.Context, class:FormattedError, class:M|*graphql.Object|*graphql.selectionPlan, class:graphql.selectionPlan, class:graphql.fieldPlan, class:M|string|int, class:M|string|bool, class:E|*graphql.fieldPlan, class:E|*ast.Field, class:M|string|interface, class:E|interface, class:graphql.fragmentGate, class:graphql.fragmentTrace, class:E|graphql.collectStep, class:M|string|*graphql.fragmentTrace, class:E|graphql.fragmentSpreadEdge, class:M|string|*graphql.fragmentGate, class:E|func, class:graphql.Plan.expanding, class:M|*ast.Field|bool, class:M|*graphql.fieldPlan|bool, class:M|*graphql.fragmentTrace|bool
 
 //@ func resolvePlannedField
 //@   props C04 C20 C06 C17
-//@   assigns class:executionContext.Errors, class:executionContext.Context, class:FormattedError, class:M|*graphql.Object|*graphql.selectionPlan, class:graphql.selectionPlan, class:graphql.fieldPlan, class:M|string|int, class:M|string|bool, class:E|*graphql.fieldPlan, class:E|*ast.Field, class:M|string|interface, class:E|interface, class:graphql.fragmentGate, class:graphql.fragmentTrace, class:E|graphql.collectStep, class:M|string|*graphql.fragmentTrace, class:E|graphql.fragmentSpreadEdge, class:M|string|*graphql.fragmentGate, class:E|func, class:graphql.Plan.expanding, class:M|*ast.Field|bool
+//@   assigns class:executionContext.Errors, class:executionContext.Context, class:FormattedError, class:M|*graphql.Object|*graphql.selectionPlan, class:graphql.selectionPlan, class:graphql.fieldPlan, class:M|string|int, class:M|string|bool, class:E|*graphql.fieldPlan, class:E|*ast.Field, class:M|string|interface, class:E|interface, class:graphql.fragmentGate, class:graphql.fragmentTrace, class:E|graphql.collectStep, class:M|string|*graphql.fragmentTrace, class:E|graphql.fragmentSpreadEdge, class:M|string|*graphql.fragmentGate, class:E|func, class:graphql.Plan.expanding, class:M|*ast.Field|bool, class:M|*graphql.fieldPlan|bool, class:M|*graphql.fragmentTrace|bool
 //@   nosafety
 //@   requires eCtx != nil && fp != nil && fp.fieldDef != nil
 //@   opt callback.resolveFn=maypanic
@@ -128,7 +128,7 @@ package graphql
 
 
 //@ func executePlannedSelection
-//@   assigns class:executionContext.Errors, class:executionContext.Context, class:FormattedError, class:M|*graphql.Object|*graphql.selectionPlan, class:graphql.selectionPlan, class:graphql.fieldPlan, class:M|string|int, class:M|string|bool, class:E|*graphql.fieldPlan, class:E|*ast.Field, class:M|string|interface, class:E|interface, class:graphql.fragmentGate, class:graphql.fragmentTrace, class:E|graphql.collectStep, class:M|string|*graphql.fragmentTrace, class:E|graphql.fragmentSpreadEdge, class:M|string|*graphql.fragmentGate, class:E|func, class:graphql.Plan.expanding, class:M|*ast.Field|bool
+//@   assigns class:executionContext.Errors, class:executionContext.Context, class:FormattedError, class:M|*graphql.Object|*graphql.selectionPlan, class:graphql.selectionPlan, class:graphql.fieldPlan, class:M|string|int, class:M|string|bool, class:E|*graphql.fieldPlan, class:E|*ast.Field, class:M|string|interface, class:E|interface, class:graphql.fragmentGate, class:graphql.fragmentTrace, class:E|graphql.collectStep, class:M|string|*graphql.fragmentTrace, class:E|graphql.fragmentSpreadEdge, class:M|string|*graphql.fragmentGate, class:E|func, class:graphql.Plan.expanding, class:M|*ast.Field|bool, class:M|*graphql.fieldPlan|bool, class:M|*graphql.fragmentTrace|bool
 //@   props C20 C13 C01
 //@   nosafety
 //@   requires eCtx != nil
@@ -195,7 +195,7 @@ package graphql
 //@   assigns nothing
 
 //@ func completePlannedListValue
-//@   assigns class:executionContext.Errors, class:executionContext.Context, class:FormattedError, class:M|*graphql.Object|*graphql.selectionPlan, class:graphql.selectionPlan, class:graphql.fieldPlan, class:M|string|int, class:M|string|bool, class:E|*graphql.fieldPlan, class:E|*ast.Field, class:M|string|interface, class:E|interface, class:graphql.fragmentGate, class:graphql.fragmentTrace, class:E|graphql.collectStep, class:M|string|*graphql.fragmentTrace, class:E|graphql.fragmentSpreadEdge, class:M|string|*graphql.fragmentGate, class:E|func, class:graphql.Plan.expanding, class:M|*ast.Field|bool
+//@   assigns class:executionContext.Errors, class:executionContext.Context, class:FormattedError, class:M|*graphql.Object|*graphql.selectionPlan, class:graphql.selectionPlan, class:graphql.fieldPlan, class:M|string|int, class:M|string|bool, class:E|*graphql.fieldPlan, class:E|*ast.Field, class:M|string|interface, class:E|interface, class:graphql.fragmentGate, class:graphql.fragmentTrace, class:E|graphql.collectStep, class:M|string|*graphql.fragmentTrace, class:E|graphql.fragmentSpreadEdge, class:M|string|*graphql.fragmentGate, class:E|func, class:graphql.Plan.expanding, class:M|*ast.Field|bool, class:M|*graphql.fieldPlan|bool, class:M|*graphql.fragmentTrace|bool
 //@   props C20 C18 C04
 //@   nosafety
 //@   requires eCtx != nil && returnType != nil
@@ -204,7 +204,7 @@ package graphql
 //@   loop 1 invariant fresh(completedResults)
 
 //@ func completePlannedObjectValue
-//@   assigns class:executionContext.Errors, class:executionContext.Context, class:FormattedError, class:M|*graphql.Object|*graphql.selectionPlan, class:graphql.selectionPlan, class:graphql.fieldPlan, class:M|string|int, class:M|string|bool, class:E|*graphql.fieldPlan, class:E|*ast.Field, class:M|string|interface, class:E|interface, class:graphql.fragmentGate, class:graphql.fragmentTrace, class:E|graphql.collectStep, class:M|string|*graphql.fragmentTrace, class:E|graphql.fragmentSpreadEdge, class:M|string|*graphql.fragmentGate, class:E|func, class:graphql.Plan.expanding, class:M|*ast.Field|bool
+//@   assigns class:executionContext.Errors, class:executionContext.Context, class:FormattedError, class:M|*graphql.Object|*graphql.selectionPlan, class:graphql.selectionPlan, class:graphql.fieldPlan, class:M|string|int, class:M|string|bool, class:E|*graphql.fieldPlan, class:E|*ast.Field, class:M|string|interface, class:E|interface, class:graphql.fragmentGate, class:graphql.fragmentTrace, class:E|graphql.collectStep, class:M|string|*graphql.fragmentTrace, class:E|graphql.fragmentSpreadEdge, class:M|string|*graphql.fragmentGate, class:E|func, class:graphql.Plan.expanding, class:M|*ast.Field|bool, class:M|*graphql.fieldPlan|bool, class:M|*graphql.fragmentTrace|bool
 //@   props C20 C04
 //@   nosafety
 //@   requires eCtx != nil && returnType != nil
@@ -215,7 +215,7 @@ package graphql
 //@   at[C20] call abstractAlternative: assert fp.sub == nil && fp.plannedOnDemand && arg1 == fp && arg2 == returnType
 
 //@ func completePlannedAbstractValue
-//@   assigns class:executionContext.Errors, class:executionContext.Context, class:FormattedError, class:M|*graphql.Object|*graphql.selectionPlan, class:graphql.selectionPlan, class:graphql.fieldPlan, class:M|string|int, class:M|string|bool, class:E|*graphql.fieldPlan, class:E|*ast.Field, class:M|string|interface, class:E|interface, class:graphql.fragmentGate, class:graphql.fragmentTrace, class:E|graphql.collectStep, class:M|string|*graphql.fragmentTrace, class:E|graphql.fragmentSpreadEdge, class:M|string|*graphql.fragmentGate, class:E|func, class:graphql.Plan.expanding, class:M|*ast.Field|bool
+//@   assigns class:executionContext.Errors, class:executionContext.Context, class:FormattedError, class:M|*graphql.Object|*graphql.selectionPlan, class:graphql.selectionPlan, class:graphql.fieldPlan, class:M|string|int, class:M|string|bool, class:E|*graphql.fieldPlan, class:E|*ast.Field, class:M|string|interface, class:E|interface, class:graphql.fragmentGate, class:graphql.fragmentTrace, class:E|graphql.collectStep, class:M|string|*graphql.fragmentTrace, class:E|graphql.fragmentSpreadEdge, class:M|string|*graphql.fragmentGate, class:E|func, class:graphql.Plan.expanding, class:M|*ast.Field|bool, class:M|*graphql.fieldPlan|bool, class:M|*graphql.fragmentTrace|bool
 //@   props C20 C04 C01
 //@   nosafety
 //@   requires eCtx != nil && fp != nil && (eCtx.plan == nil || !held(&eCtx.plan.abstractMu))
@@ -727,12 +727,12 @@ package graphql
 
 //@ func Plan.planMergedSelectionsForType
 //@   opt maypanic=true
-//@   assigns class:graphql.selectionPlan, class:graphql.fieldPlan, class:graphql.fragmentGate, class:graphql.fragmentTrace, class:E|graphql.collectStep, class:M|string|*graphql.fragmentTrace, class:E|graphql.fragmentSpreadEdge, class:M|string|*graphql.fragmentGate, class:M|string|int, class:M|string|bool, class:E|*graphql.fieldPlan, class:E|*ast.Field, class:E|func, class:graphql.Plan.expanding, class:M|*ast.Field|bool
+//@   assigns class:graphql.selectionPlan, class:graphql.fieldPlan, class:graphql.fragmentGate, class:graphql.fragmentTrace, class:E|graphql.collectStep, class:M|string|*graphql.fragmentTrace, class:E|graphql.fragmentSpreadEdge, class:M|string|*graphql.fragmentGate, class:M|string|int, class:M|string|bool, class:E|*graphql.fieldPlan, class:E|*ast.Field, class:E|func, class:graphql.Plan.expanding, class:M|*ast.Field|bool, class:M|*graphql.fieldPlan|bool, class:M|*graphql.fragmentTrace|bool
 
 //@ func Plan.abstractAlternative
 //@   props C01 C07 C09 C19
 //@   nosafety
-//@   assigns class:M|*graphql.Object|*graphql.selectionPlan, class:graphql.selectionPlan, class:graphql.fieldPlan, class:M|string|int, class:M|string|bool, class:E|*graphql.fieldPlan, class:E|*ast.Field, class:M|string|interface, class:E|interface, class:graphql.fragmentGate, class:graphql.fragmentTrace, class:E|graphql.collectStep, class:M|string|*graphql.fragmentTrace, class:E|graphql.fragmentSpreadEdge, class:M|string|*graphql.fragmentGate, class:E|func, class:graphql.Plan.expanding, class:M|*ast.Field|bool
+//@   assigns class:M|*graphql.Object|*graphql.selectionPlan, class:graphql.selectionPlan, class:graphql.fieldPlan, class:M|string|int, class:M|string|bool, class:E|*graphql.fieldPlan, class:E|*ast.Field, class:M|string|interface, class:E|interface, class:graphql.fragmentGate, class:graphql.fragmentTrace, class:E|graphql.collectStep, class:M|string|*graphql.fragmentTrace, class:E|graphql.fragmentSpreadEdge, class:M|string|*graphql.fragmentGate, class:E|func, class:graphql.Plan.expanding, class:M|*ast.Field|bool, class:M|*graphql.fieldPlan|bool, class:M|*graphql.fragmentTrace|bool
 //@   requires p != nil && fp != nil && !held(&p.abstractMu)
 //@   ensures !held(&p.abstractMu)
 //@   panics !held(&p.abstractMu)
@@ -816,7 +816,7 @@ package graphql
 //@ func Plan.collectInto
 //@   props C01 C13 C20
 //@   nosafety
-//@   assigns class:graphql.selectionPlan, class:graphql.fieldPlan, class:graphql.fragmentGate, class:graphql.fragmentTrace, class:E|graphql.collectStep, class:M|string|*graphql.fragmentTrace, class:E|graphql.fragmentSpreadEdge, class:M|string|*graphql.fragmentGate, class:M|string|int, class:M|string|bool, class:E|*graphql.fieldPlan, class:E|*ast.Field, class:E|func, class:graphql.Plan.expanding, class:M|*ast.Field|bool
+//@   assigns class:graphql.selectionPlan, class:graphql.fieldPlan, class:graphql.fragmentGate, class:graphql.fragmentTrace, class:E|graphql.collectStep, class:M|string|*graphql.fragmentTrace, class:E|graphql.fragmentSpreadEdge, class:M|string|*graphql.fragmentGate, class:M|string|int, class:M|string|bool, class:E|*graphql.fieldPlan, class:E|*ast.Field, class:E|func, class:graphql.Plan.expanding, class:M|*ast.Field|bool, class:M|*graphql.fieldPlan|bool, class:M|*graphql.fragmentTrace|bool
 //@   requires p != nil
 //@   requires sp != nil
 //@   requires selectionSet != nil
@@ -1458,12 +1458,54 @@ package graphql
 //@   assigns nothing
 
 // the trace of collected selections (C13): appended to the list being collected
+// (verified, were trusted)
 //@ func selectionPlan.record
-//@   trusted
-//@   assigns class:graphql.selectionPlan, class:graphql.fragmentTrace, class:E|graphql.collectStep
+//@   props C13 C01
+//@   nosafety
+//@   requires sp != nil
+//@   assigns class:graphql.selectionPlan, class:graphql.fragmentTrace, class:collectStep
+//@   ensures old(sp.collecting) == nil ==> sp.conditional == old(sp.conditional)
+//@   ensures old(sp.collecting) != nil ==> len(*sp.collecting) == old(len(*sp.collecting)) + 1 && (*sp.collecting)[len(*sp.collecting)-1].field == step.field && (*sp.collecting)[len(*sp.collecting)-1].spread == step.spread && (*sp.collecting)[len(*sp.collecting)-1].cond == step.cond
+//@   ensures old(sp.collecting) != nil && step.cond != nil ==> sp.conditional
+//@   ensures step.cond == nil ==> sp.conditional == old(sp.conditional)
+//@   ensures sp.collecting == old(sp.collecting)
+
+// The replay of the collection for one request. The closure walks a list of steps: a step whose condition
+// is false for the request's variables contributes nothing; a field not yet placed is appended and marked,
+// one already placed is not appended again (the marks are ONE set for the whole replay: every field in the
+// result is marked, so none is listed twice); a fragment not yet entered is marked and its own steps are
+// replayed, one already entered is not replayed again.
+//@ func selectionPlan.fieldsInOrder$1
+//@   props C13 C01 C20
+//@   nosafety
+//@   opt callback.cond=pure
+//@   opt callback.replay=self
+//@   requires placed != nil && entered != nil
+//@   requires forall i in 0..len(ordered): has(placed, ordered[i]) && placed[ordered[i]]
+//@   ensures forall i in 0..len(ordered): has(placed, ordered[i]) && placed[ordered[i]]
+//@   ensures mapkept(placed) && mapkept(entered) && len(ordered) >= old(len(ordered))
+//@   ensures forall i in 0..old(len(ordered)): ordered[i] == old(ordered[i])
+//@   assigns class:M|*graphql.fieldPlan|bool, class:M|*graphql.fragmentTrace|bool, class:E|*graphql.fieldPlan
+//@   loop 1 invariant forall i in 0..len(ordered): has(placed, ordered[i]) && placed[ordered[i]]
+//@   loop 1 invariant mapkept(placed) && mapkept(entered) && len(ordered) >= old(len(ordered))
+//@   loop 1 invariant forall i in 0..old(len(ordered)): ordered[i] == old(ordered[i])
+//@   at call cond: assert arg0 == vars
+//@   at call replay: assert arg0 == step.spread.steps && has(entered, step.spread) && entered[step.spread] && !heapatloop(1, has(entered, step.spread) && entered[step.spread])
+//@   loop 1 ensures calls("cond") == atloop(1, calls("cond")) + 1 && !lastresult("cond") ==> len(ordered) == atloop(1, len(ordered)) && calls("replay") == atloop(1, calls("replay"))
+//@   loop 1 ensures (step.cond == nil || (calls("cond") == atloop(1, calls("cond")) + 1 && lastresult("cond"))) && step.field != nil && !heapatloop(1, has(placed, step.field) && placed[step.field]) ==> len(ordered) == atloop(1, len(ordered)) + 1 && ordered[len(ordered)-1] == step.field
+//@   loop 1 ensures step.field != nil && heapatloop(1, has(placed, step.field) && placed[step.field]) ==> len(ordered) == atloop(1, len(ordered))
+//@   loop 1 ensures step.field != nil ==> calls("replay") == atloop(1, calls("replay"))
+//@   loop 1 ensures calls("replay") == atloop(1, calls("replay")) && step.field == nil ==> len(ordered) == atloop(1, len(ordered))
+//@   loop 1 ensures (step.cond == nil || (calls("cond") == atloop(1, calls("cond")) + 1 && lastresult("cond"))) && step.field == nil && step.spread != nil && !heapatloop(1, has(entered, step.spread) && entered[step.spread]) ==> calls("replay") == atloop(1, calls("replay")) + 1
+
 //@ func selectionPlan.fieldsInOrder
-//@   trusted
-//@   assigns nothing
+//@   props C13 C01 C20
+//@   nosafety
+//@   requires sp != nil
+//@   assigns class:M|*graphql.fieldPlan|bool, class:M|*graphql.fragmentTrace|bool, class:E|*graphql.fieldPlan
+//@   at call replay: assert arg0 == sp.trace && len(ordered) == 0 && fresh(placed) && fresh(entered) && len(placed) == 0 && len(entered) == 0
+//@   ensures calls("replay") == 1
+//@   at return: assert result == ordered
 //@ func executePlannedSelection
 //@   at[C13,C01] call fieldsInOrder: assert arg0 == sp && sp.conditional && arg1 == eCtx.VariableValues
 //@   at[C13] return: assert !old(sp != nil && sp.conditional) ==> calls("fieldsInOrder") == 0
